@@ -137,7 +137,8 @@ def expected_update(body: bytes, asn4: bool, addpath=lambda afi, safi: False):
             pass  # extended communities: rendered by the bounded layer as raw values only
         elif flags & 0x40:
             # unknown transitive: relayed, PARTIAL set
-            attribute[f'attribute-0x{typ:02X}-0x{(flags | 0x20):02X}'] = '0x' + val.hex()
+            # (the four low bits of the flags are unused and ignored on receipt, RFC 4271 4.3)
+            attribute[f'attribute-0x{typ:02X}-0x{((flags & 0xF0) | 0x20):02X}'] = '0x' + val.hex()
         # unknown optional non-transitive: left out (not relayed)
     # RFC 6793 4.2.3: "If the AS number [of AGGREGATOR] is not AS_TRANS, then ... the AS4_AGGREGATOR attribute and the AS4_PATH
     # attribute SHALL be ignored"
@@ -224,7 +225,8 @@ def malformed(body: bytes, asn4: bool, addpath=lambda afi, safi: False, families
                 if fam not in families:
                     out.append((typ, 'family not negotiated'))
                     continue
-                if nhl not in (4, 16, 32) or val[4 + nhl] != 0:
+                val[4 + nhl]  # the Reserved octet is there (IndexError: truncated); its VALUE "SHOULD be ignored upon receipt" (RFC 4760 3)
+                if nhl not in (4, 16, 32):
                     out.append((typ, 'nexthop'))
                 prefixes(val[5 + nhl :], addpath(*fam))
             except (ValueError, IndexError):
